@@ -74,7 +74,10 @@ func HashName(field string) string {
 func RemoveElementAfter(slice []string, marker string) []string {
 	for i, v := range slice {
 		if v == marker && i+1 < len(slice) {
-			return append(slice[:i+1], slice[i+2:]...)
+			// build a fresh slice: appending onto slice[:i+1] would shift the caller's tail in place
+			out := make([]string, 0, len(slice)-1)
+			out = append(out, slice[:i+1]...)
+			return append(out, slice[i+2:]...)
 		}
 	}
 	return slice
